@@ -22,7 +22,17 @@ ACCESSORS = ["GMGPolar::numberOfIterations", "GMGPolar::meanResidualReductionFac
 
 
 def load():
-    prog = ir.load(units=DRIVER_UNITS, witness=False)
+    # the driver's translation units: everything under the three directories (a function moved into a new file of the same
+    # directory is still found), which today is the DRIVER_UNITS list plus the parser, the VTK writer and the test-case selection
+    import glob
+    import os
+    found = set()
+    for pat in ("src/GMGPolar/*.cpp", "src/GMGPolar/MultigridMethods/*.cpp", "src/Level/*.cpp", "src/Interpolation/*.cpp"):
+        found.update(os.path.relpath(p_, ir.REPO) for p_ in glob.glob(os.path.join(ir.REPO, pat)))
+    units = sorted(found | set(u for u in DRIVER_UNITS if os.path.exists(os.path.join(ir.REPO, u))))
+    if len(units) < 12:
+        raise ir.AnalysisBroken("only %d driver translation units found under src/GMGPolar, src/Level, src/Interpolation" % len(units))
+    prog = ir.load(units=units, witness=False)
     drv.check_signatures(prog)
     return prog
 
